@@ -234,4 +234,10 @@ def r5_speed_formula(ctx):
         r.check(nf == want, "formula/tip910=%d" % fl, "speed = %d·2^d/(h−h_coin)" % mult, "speed = %s" % sig(nf)[:200])
 
 
-RULES = [r1_gate_chain, r2_reward_bound, r3_speed_commitment, r5_speed_formula]
+def shared(ctx):
+    from rules.engine import core
+    from rules.props import c01
+    core.import_rules(ctx, [c01.r2_exemption_table], "X01")
+
+
+RULES = [r1_gate_chain, r2_reward_bound, r3_speed_commitment, r5_speed_formula, shared]
